@@ -10,7 +10,10 @@ from . import source as S
 
 
 class LoopSpec:
-    def __init__(self, invariant=None, types=None, label=None, havoc_fields=(), variant=None, unroll=None, ghost_update=None, ghost_havoc=None, hints=None, heap_unchanged=False):
+    def __init__(self, invariant=None, types=None, label=None, havoc_fields=(), variant=None, unroll=None, ghost_update=None, ghost_havoc=None, hints=None, heap_unchanged=False, assumed_summary=None, keep=()):
+        # assumed_summary: text.  The loop is NOT executed: it is replaced by the assumed summary "either the loop leaves the heap and the
+        # variables in `keep` untouched and falls through, or it fires (paths on which it fires are not checked)".  Reported as an assumption.
+        self.assumed_summary, self.keep = assumed_summary, tuple(keep)
         self.heap_unchanged = heap_unchanged  # frame invariant "every iteration starts in the heap of loop entry": no heap havoc; obligation: a continuing iteration leaves the heap terms untouched
         self.hints = hints  # callable(LoopCtx) -> list of formulas: ground instances of assumed (definitional) axioms
         self.ghost_havoc = ghost_havoc  # callable(ex): havoc the ghost state the loop changes
@@ -138,7 +141,7 @@ class StmtMixin:
         v = self.ev(st.value, env)
         lt = self.frames[-1].get("local_types") or {}
         if len(st.targets) == 1 and isinstance(st.targets[0], ast.Name) and st.targets[0].id in lt:
-            v = self.coerce_to_annotation(v, lt[st.targets[0].id])
+            v = self.coerce_to_annotation(v, lt[st.targets[0].id], declared=True)
         for t in st.targets:
             self.bind_target(t, v, env)
 
@@ -147,16 +150,17 @@ class StmtMixin:
             return
         v = self.ev(st.value, env)
         lt = self.frames[-1].get("local_types") or {}
-        if isinstance(st.target, ast.Name) and st.target.id in lt:
+        declared = isinstance(st.target, ast.Name) and st.target.id in lt
+        if declared:
             ty = lt[st.target.id]
         else:
             ty = self.world.annotation_type(self, st.annotation, env)
-        v = self.coerce_to_annotation(v, ty)
+        v = self.coerce_to_annotation(v, ty, declared=declared)
         self.bind_target(st.target, v, env)
         if isinstance(st.target, ast.Name) and ty is not None:
             self.decl_types.setdefault(id(env), {})[st.target.id] = ty
 
-    def coerce_to_annotation(self, v: V, ty):
+    def coerce_to_annotation(self, v: V, ty, declared=False):
         """`x: List[int] = []` -> typed empty symbolic sequence; sets/dicts likewise."""
         if ty is None:
             return v
@@ -165,7 +169,7 @@ class StmtMixin:
             self.assume_seq_lengths(nv)
             return self.force(nv)
         t = ty.t if isinstance(ty, Opt) else ty
-        if isinstance(v, VList) and isinstance(t, Seq) and not v.items:
+        if isinstance(v, VList) and isinstance(t, Seq) and (declared or not v.items):
             return self.list_to_seq(v, t.t)
         if isinstance(t, SetT) and isinstance(v, VPy) and isinstance(v.obj, tuple) and v.obj[0] == "set":
             arr = z3.K(flat_sorts(t.t)[0], z3.BoolVal(False))
@@ -443,9 +447,19 @@ class StmtMixin:
             return "break"
         return "next"
 
+    def summarise_loop(self, st, env, spec, base):
+        self.assumptions_used.add(f"{base} is not executed: {spec.assumed_summary}")
+        kept = {n: env.lookup(n) for n in spec.keep}
+        self.havoc_loop_state(st, env, LoopSpec(heap_unchanged=True, types=spec.types))
+        for n, v in kept.items():
+            if v is not None:
+                self.set_existing(env, n, v)
+
     def ex_While(self, st, env):
         o, spec = self.loop_spec(st)
         base = f"{self.frames[-1]['fid']}.loop{o}" + (f"[{spec.label}]" if spec and spec.label else "")
+        if spec is not None and spec.assumed_summary:
+            return self.summarise_loop(st, env, spec, base)
         unroll = spec.unroll if spec and spec.unroll else (self.frames[-1].get("unroll_while") or 0)
         if spec is None and unroll:
             for _ in range(unroll):
@@ -471,8 +485,10 @@ class StmtMixin:
 
     def ex_For(self, st, env):
         o, spec = self.loop_spec(st)
-        it = self.ev_iterable(st.iter, env)
         base = f"{self.frames[-1]['fid']}.loop{o}" + (f"[{spec.label}]" if spec and spec.label else "")
+        if spec is not None and spec.assumed_summary:
+            return self.summarise_loop(st, env, spec, base)
+        it = self.ev_iterable(st.iter, env)
         if isinstance(it, list) and (spec is None or spec.invariant is None or len(it) <= 1):
             for item in it:
                 self.bind_target(st.target, item, env)
